@@ -229,8 +229,23 @@ def gen_scenario(rng: random.Random) -> list[list[str]]:
         return f"Mark: s{u[0]}"
     w1 = rng.choice([0.2, 0.3, 0.5, 0.8])
     w2 = rng.choice([0.2, 0.4, 1.0])
-    k = rng.randrange(22)
-    if k in (20, 21):
+    k = rng.randrange(24)
+    if k in (22, 23):
+        # a Watch registered from an interrupt body while a block it does not belong to is the innermost active block;
+        # that block then ends by its own End block while the Watch is still pending, and the Watch's condition comes
+        # true later (End block ends exactly its own block and its own pending interrupts)
+        t1 = rng.choice([0.3, 0.5, 0.8])
+        t2 = rng.choice([2.5, 3.0, 4.0])
+        wb = rng.choice([0.8, 1.0, 1.5])
+        if k == 22:
+            lines = ["Base: s", f"Watch: Run Time > {t1:g} s", "    " + m(), f"    Watch: Run Time > {t2:g} s", "        " + m(),
+                     "Block: obA", "    " + m(), f"    Wait: {wb:g}s", "    End block", m(), f"Wait: {t2 + 1:g}s", m()]
+        else:
+            lines = ["Base: s", "Block: obA", "    " + m(), f"    Watch: Block Time > {t1:g} s", "        " + m(),
+                     f"        Watch: Run Time > {t2 + 1:g} s", "            " + m(), "            End block",
+                     "    Block: obB", "        " + m(), f"        Wait: {wb:g}s", "        End block", "    " + m(),
+                     f"    Wait: {t2 + 3:g}s", "    " + m(), m()]
+    elif k in (20, 21):
         # a chain of macros (A calls B [calls C]); the last one is redefined between two calls of the first
         names = ["NA", "NB", "NC"][:rng.choice([2, 3])]
         lines = []
